@@ -288,6 +288,21 @@ def inline_new_temps(tree, modname):
         if r is None or q.startswith("@"):
             continue
         params = {a.arg for a in ast.walk(fn.args) if isinstance(a, ast.arg)}
+        # a, b = (x, y) binding new names is a = x; b = y when no target occurs in the values
+        for blk in _blocks(fn):
+            i = 0
+            while i < len(blk):
+                st = blk[i]
+                if (isinstance(st, ast.Assign) and len(st.targets) == 1 and isinstance(st.targets[0], ast.Tuple) and isinstance(st.value, ast.Tuple)
+                        and len(st.targets[0].elts) == len(st.value.elts) and all(isinstance(t, ast.Name) and t.id not in r and t.id not in params for t in st.targets[0].elts)):
+                    tn = {t.id for t in st.targets[0].elts}
+                    if not any(isinstance(y, ast.Name) and y.id in tn for v in st.value.elts for y in ast.walk(v)) and all(_pure_expr(v) for v in st.value.elts):
+                        new = [ast.copy_location(ast.Assign(targets=[t], value=v), st) for t, v in zip(st.targets[0].elts, st.value.elts)]
+                        blk[i:i + 1] = new
+                        applied.setdefault(q, []).append("split:" + ",".join(sorted(tn)))
+                        i += len(new)
+                        continue
+                i += 1
         for _ in range(8):
             own = list(_own_nodes(fn))
             stores, loads = {}, {}
